@@ -246,6 +246,74 @@ def generic_subclass(forwarding, as_return):
             _program([A, Box, C, d]))
 
 
+def name_role(kind):
+    """the same identifier `total`, mentioned from the same function `compute`, in different roles:
+    0: val total: Int = 1; fun compute(): Int = total        (unique top-level variable)
+    1: fun compute(total: Int): Int = total                  (parameter)
+    2: val total: Int = 1; fun compute(): Int { val total: Int = 2; return total }   (local shadowing a top-level variable)
+    3: fun total(): Int = 1; fun compute(): Int = total()    (top-level function)"""
+    decls = []
+    one = ast.IntegerConstant(1, kt.Integer)
+    if kind in (0, 2):
+        decls.append(ast.VariableDeclaration('total', one, is_final=True, var_type=kt.Integer))
+    if kind == 3:
+        decls.append(ast.FunctionDeclaration('total', [], kt.Integer, one, ast.FunctionDeclaration.FUNCTION))
+    if kind == 0:
+        f = ast.FunctionDeclaration('compute', [], kt.Integer, ast.Variable('total'), ast.FunctionDeclaration.FUNCTION)
+    elif kind == 1:
+        f = ast.FunctionDeclaration('compute', [ast.ParameterDeclaration('total', kt.Integer)], kt.Integer, ast.Variable('total'),
+                                    ast.FunctionDeclaration.FUNCTION)
+    elif kind == 2:
+        loc = ast.VariableDeclaration('total', ast.IntegerConstant(2, kt.Integer), is_final=True, var_type=kt.Integer)
+        f = ast.FunctionDeclaration('compute', [], kt.Integer, ast.Block([loc, ast.Variable('total')]),
+                                    ast.FunctionDeclaration.FUNCTION)
+    else:
+        f = ast.FunctionDeclaration('compute', [], kt.Integer, ast.FunctionCall('total', []), ast.FunctionDeclaration.FUNCTION)
+    decls.append(f)
+    return 'template/name-role-%s' % ['global', 'parameter', 'shadowing-local', 'function'][kind], _program(decls)
+
+
+def super_constructor_operators(op_kind):
+    """open class Base(val flag: Boolean); class Derived : Base(1 < 2 | 1 == 2 | true && false);
+    fun widths(): Long { val l: Long = 5; val s: Short = 7; return l }   -- operator expressions in a super-constructor call,
+    next to integer literals of the wider / narrower integral types"""
+    Base = ast.ClassDeclaration('Base', [], ast.ClassDeclaration.REGULAR, fields=[ast.FieldDeclaration('flag', kt.Boolean)],
+                                functions=[], is_final=False)
+    one, two = ast.IntegerConstant(1, kt.Integer), ast.IntegerConstant(2, kt.Integer)
+    if op_kind == 0:
+        e = ast.ComparisonExpr(one, two, ast.Operator('<'))
+    elif op_kind == 1:
+        e = ast.EqualityExpr(one, two, ast.Operator('=='))
+    else:
+        e = ast.LogicalExpr(ast.BooleanConstant('true'), ast.BooleanConstant('false'), ast.Operator('&&'))
+    Derived = ast.ClassDeclaration('Derived', [ast.SuperClassInstantiation(Base.get_type(), [e])], ast.ClassDeclaration.REGULAR,
+                                   fields=[], functions=[])
+    lv = ast.VariableDeclaration('l', ast.IntegerConstant(5, kt.Long), is_final=True, var_type=kt.Long)
+    sv = ast.VariableDeclaration('s', ast.IntegerConstant(7, kt.Short), is_final=True, var_type=kt.Short)
+    widths = ast.FunctionDeclaration('widths', [], kt.Long, ast.Block([lv, sv, ast.Variable('l')]), ast.FunctionDeclaration.FUNCTION)
+    return 'template/super-constructor-%s' % ['comparison', 'equality', 'logical'][op_kind], _program([Base, Derived, widths])
+
+
+def vararg_parameter(elem_kind):
+    """fun collect(n: Int, vararg rows: String | Array<String> | Box<String>): Int = n   -- the declared type of a vararg
+    parameter is the array of its elements; the element type may itself be parameterized"""
+    decls = []
+    if elem_kind == 0:
+        elem = kt.String
+    elif elem_kind == 1:
+        elem = kt.Array.new([kt.String])
+    else:
+        T = tp.TypeParameter('T')
+        Box = ast.ClassDeclaration('Box', [], ast.ClassDeclaration.REGULAR, fields=[], functions=[], type_parameters=[T])
+        decls.append(Box)
+        elem = Box.get_type().new([kt.String])
+    rows = ast.ParameterDeclaration('rows', kt.Array.new([elem]), vararg=True)
+    collect = ast.FunctionDeclaration('collect', [ast.ParameterDeclaration('n', kt.Integer), rows], kt.Integer, ast.Variable('n'),
+                                      ast.FunctionDeclaration.FUNCTION)
+    decls.append(collect)
+    return 'template/vararg-parameter-%s' % ['plain', 'array', 'generic'][elem_kind], _program(decls)
+
+
 _BUILDERS = {}
 
 
@@ -299,6 +367,11 @@ def all_templates():
     for fw in (0, 1):
         for r in (0, 1):
             _reg(out, generic_subclass, fw, r)
+    for k in range(4):
+        _reg(out, name_role, k)
+    for k in range(3):
+        _reg(out, super_constructor_operators, k)
+        _reg(out, vararg_parameter, k)
     _reg(out, generic_call_operand, 0, 1)
     _reg(out, generic_call_operand, 0, 0)
     _reg(out, generic_call_operand, 1, 1)
